@@ -253,4 +253,273 @@ theorem unlimited_keeps_everything {σ0 : St} (hw : WF σ0) (hu : EngUniq σ0) (
     raise_before_delete_keeps hw hu hno hidle hq0 0 g hg hlive (Or.inl rfl) sc
   exact ⟨h1, g', hg', h3, h4⟩
 
+/-! ## 5. expired shards are eventually removed from storage and catalogue -/
+
+/-- a whole run is a finite sequence of service steps: the refresh, possibly an alteration
+arriving meanwhile, the expiry check, and one loop iteration per reported shard. -/
+theorem run_is_finitely_many_steps (sc : Script) (σ : St) :
+    run sc σ = steps σ (runOps sc σ) ∧
+    (runOps sc σ).length = (runHead sc).length + (steps σ (runHead sc)).queue.length := by
+  constructor
+  · rfl
+  · unfold runOps; simp
+
+/-- waiting does not un-expire anything. -/
+theorem expired_stays_expired (d e now dt : Int) (hdt : 0 ≤ dt) (h : shardIsExpired now d e = true) :
+    shardIsExpired (now + dt) d e = true := by
+  have := (expired_iff d e now).mp h
+  exact (expired_iff d e (now + dt)).mpr ⟨this.1, by omega⟩
+
+/-- **eventually_removed** (progress): a shard the catalogue lists for this store, whose group
+ended more than the policy's (limited) duration ago and whose delete is not pending, is
+reported by the next run whose refresh reaches meta; if that run's three calls for it succeed —
+the fairness assumption — then after the finitely many steps of the run the store has no shard
+object with that id, every catalogue entry of it is marked deleted (the group disappears with
+its last entry), and — unless the shard object was a closing one — its directories are gone.
+A failed refresh changes nothing (`run_without_refresh_touches_nothing`) and waiting keeps the
+shard expired (`expired_stays_expired`), so the precondition survives until such a run. -/
+theorem eventually_removed {σ : St} (hw : WF σ) (hst : CatStatic σ.cat)
+    (hidle : σ.phase = .idle) (sid : Nat) (g : Group) (hg : g ∈ σ.cat) (c : CShard) (hc : c ∈ g.shards)
+    (hmine : c.mine = true) (hsid : c.sid = sid)
+    (hexp : σ.metaDur ≠ 0 ∧ g.endT + σ.metaDur < σ.clock) (hpend : sid ∉ σ.pending)
+    (sc : Script) (hrf : sc.refreshOk = true) (hgood : ∀ x, sc.outcome x = .good) :
+    Removed (run sc σ) sid ∧
+    ((∀ s ∈ σ.eng, s.sid = sid → s.idx = true) → (sid ∈ σ.disk → ∃ s ∈ σ.eng, s.sid = sid) →
+      sid ∉ (run sc σ).disk) := by
+  obtain ⟨e1, e2, e3, e4, e5, _, _, e8⟩ := runHead_ok (sc := sc) hidle hrf
+  have hcore := run_core sc σ e8
+  simp only [Core, Prod.mk.injEq] at hcore
+  obtain ⟨_, c2, c3, c4, _, _⟩ := hcore
+  -- the catalogue's entry for the shard, as the refresh sees it
+  have hi0 : (⟨sid, g.gid, g.endT, σ.metaDur⟩ : DurInfo) ∈ durInfos σ.cat σ.metaDur :=
+    mem_durInfos.mpr ⟨g, hg, c, hc, hmine, by rw [hsid]⟩
+  have hcs : sid ∈ g.sids := hsid ▸ List.mem_map.mpr ⟨c, hc, rfl⟩
+  -- the shard is in the reported list
+  have hin : ∃ q ∈ (steps σ (runHead sc)).queue, q.sid = sid := by
+    rw [e1]
+    by_cases hload : ∃ s ∈ σ.eng, s.sid = sid ∧ s.idx = true
+    · -- refreshed in place, judged by its own (now fresh) duration
+      obtain ⟨s, hs, hss, hidx⟩ := hload
+      refine ⟨⟨s.sid, (updShard (durInfos σ.cat σ.metaDur) s).gid, s.endT, σ.metaDur, false⟩,
+        mem_sortQ.mpr ?_, hss⟩
+      unfold expiredShards
+      refine List.mem_append_left _ (mem_expiredLoaded.mpr ⟨updShard (durInfos σ.cat σ.metaDur) s, ?_, ?_, ?_, ?_⟩)
+      · simp only [refreshOk]; exact List.mem_map.mpr ⟨s, hs, rfl⟩
+      · simp only [refreshOk, nilInfos, updShard_sid]
+        rw [List.any_eq_false]
+        intro i hi
+        have := (List.mem_filter.mp hi).2
+        simp only [Bool.not_eq_true', List.any_eq_false, Bool.and_eq_true, beq_iff_eq, not_and] at this
+        intro hh
+        have hh : i.sid = s.sid := by simpa using hh
+        exact absurd hidx (by simpa using this s hs hh.symm)
+      · have hdur : (updShard (durInfos σ.cat σ.metaDur) s).dur = σ.metaDur := by
+          unfold updShard
+          rw [if_pos hidx]
+          split
+          · rename_i i hf; exact durInfos_dur (List.mem_of_find?_eq_some hf)
+          · rename_i hf
+            have := List.find?_eq_none.mp hf _ hi0
+            simp [hss] at this
+        rw [hdur, updShard_endT]
+        refine (expired_iff _ _ _).mpr ⟨hexp.1, ?_⟩
+        rw [← hw.engEnd s hs g hg (hss ▸ hcs)]; exact hexp.2
+      · have hdur : (updShard (durInfos σ.cat σ.metaDur) s).dur = σ.metaDur := by
+          unfold updShard
+          rw [if_pos hidx]
+          split
+          · rename_i i hf; exact durInfos_dur (List.mem_of_find?_eq_some hf)
+          · rename_i hf
+            have := List.find?_eq_none.mp hf _ hi0
+            simp [hss] at this
+        simp only [updShard_sid, updShard_endT, hdur]
+    · -- not refreshed in place: the entry meta sent decides
+      have hnil : (⟨sid, g.gid, g.endT, σ.metaDur⟩ : DurInfo) ∈ (refreshOk σ).nilMap := by
+        simp only [refreshOk, nilInfos]
+        refine List.mem_filter.mpr ⟨hi0, ?_⟩
+        simp only [Bool.not_eq_true', List.any_eq_false, Bool.and_eq_true, beq_iff_eq, not_and]
+        intro x hx hxs
+        cases hxi : x.idx
+        · simp
+        · exact absurd ⟨x, hx, hxs, hxi⟩ hload
+      refine ⟨⟨sid, g.gid, g.endT, σ.metaDur, true⟩, mem_sortQ.mpr ?_, rfl⟩
+      unfold expiredShards
+      refine List.mem_append_right _ (mem_expiredNil.mpr ⟨_, hnil, ?_, ?_, rfl⟩)
+      · rw [List.any_eq_false]
+        intro q hq hh
+        have hh : q.sid = sid := by simpa using hh
+        obtain ⟨s', _, hn, _, rfl⟩ := mem_expiredLoaded.mp hq
+        have := List.any_eq_false.mp hn _ hnil
+        simp only at hh
+        simp [hh] at this
+      · exact (nil_expired_iff _ _ _).mpr hexp
+  have hrem : Removed (procQ sc.outcome (steps σ (runHead sc)).queue (steps σ (runHead sc))) sid :=
+    procQ_removes sc.outcome sid _ _ (by rw [e2]; exact hst) (fun q _ => hgood q.sid)
+      (by rw [e5]; exact hpend) hin
+  refine ⟨⟨by rw [c3]; exact hrem.1, by rw [c2]; exact hrem.2⟩, ?_⟩
+  intro hhealthy hdisk
+  rw [c4]
+  -- the disk part: follow the loop until the iteration for `sid`
+  have aux : ∀ (Q : List QItem) (τ : St), (∀ s ∈ τ.eng, s.sid = sid → s.idx = true) →
+      (sid ∈ τ.disk → ∃ s ∈ τ.eng, s.sid = sid) → sid ∉ τ.pending → (∃ q ∈ Q, q.sid = sid) →
+      sid ∉ (procQ sc.outcome Q τ).disk := by
+    intro Q
+    induction Q with
+    | nil => intro τ _ _ _ h; obtain ⟨q, hq, _⟩ := h; simp at hq
+    | cons q rest ih =>
+      intro τ h1 h2 h3 hex
+      have hg' : sc.outcome q.sid = .good := hgood q.sid
+      simp only [procQ]
+      by_cases hq : q.sid = sid
+      · intro hx
+        have hx := procQ_disk_sub sc.outcome rest _ sid hx
+        rw [hg'] at hx
+        exact procItem_removes_disk (o := .good) (q := q) (σ := τ) rfl (hq ▸ h3)
+          (fun s hs hs' => h1 s hs (hs'.trans hq)) (fun hd => by
+            obtain ⟨s, hs, hs'⟩ := h2 (hq ▸ hd); exact ⟨s, hs, hs'.trans hq.symm⟩) (hq ▸ hx)
+      · apply ih
+        · intro s hs hs'
+          exact h1 s (mem_delEng (by simpa only [procItem] using hs)) hs'
+        · intro hd
+          obtain ⟨s, hs, hs'⟩ := h2 (procItem_disk_sub hd)
+          exact ⟨s, procItem_eng_keep hs (by rw [hs']; exact fun h => hq h.symm), hs'⟩
+        · rw [procItem_pending (by rw [hg']; simp [Outcome.good])]; exact h3
+        · obtain ⟨q', hq', hs'⟩ := hex
+          rcases List.mem_cons.mp hq' with rfl | hq'
+          · exact absurd hs' hq
+          · exact ⟨q', hq', hs'⟩
+  apply aux _ _ _ _ (by rw [e5]; exact hpend) hin
+  · intro s hs hss
+    rw [e3] at hs
+    simp only [refreshOk] at hs
+    obtain ⟨s0, hs0, rfl⟩ := List.mem_map.mp hs
+    rw [updShard_idx]
+    exact hhealthy s0 hs0 ((updShard_sid _ s0).symm.trans hss)
+  · intro hd
+    rw [e4] at hd
+    obtain ⟨s, hs, hss⟩ := hdisk hd
+    exact ⟨updShard (durInfos σ.cat σ.metaDur) s, by rw [e3]; simp only [refreshOk]; exact List.mem_map.mpr ⟨s, hs, rfl⟩,
+      (updShard_sid _ s).trans hss⟩
+
+/-! ## 6. a point inside the window stays queryable -/
+
+/-- **in_window_queryable**: start anywhere the invariants hold and run any sequence of steps.
+A point `t` of a group that was live at the start, which every duration meta ever handed to
+this store keeps inside the window at the present clock (`d = 0 ∨ t + d ≥ clock` for all `d`
+in `seen`), is covered by a live group: `ShardGroupsByTimeRange(t, t)` returns its group. -/
+theorem in_window_queryable {σ : St} (hT : TimeInv σ) (hw : WF σ) (ops : List Op)
+    (g0 : Group) (hg0 : g0 ∈ σ.cat) (hlive : g0.deleted = false) (t : Int)
+    (ht : g0.startT ≤ t ∧ t < g0.endT)
+    (hwin : ∀ d ∈ (steps σ ops).seen, d = 0 ∨ t + d ≥ (steps σ ops).clock) :
+    g0.gid ∈ queryGroups (steps σ ops).cat t t := by
+  have hgi := (GI.self σ).steps hw ops
+  have hT' := hT.steps ops
+  rcases hgi g0 hg0 hlive with ⟨g, hg, h1, h2, h3, h4⟩ | ⟨e, he, _, _, h3, h4⟩
+  · unfold queryGroups
+    refine List.mem_map.mpr ⟨g, List.mem_filter.mpr ⟨hg, ?_⟩, h1⟩
+    unfold groupOverlaps
+    simp only [h4, h2, h3, Bool.false_or, Bool.not_not, Bool.and_eq_true, Bool.not_eq_true',
+      decide_eq_false_iff_not, decide_eq_true_eq]
+    omega
+  · exfalso
+    obtain ⟨hd, hlt, hle⟩ := hT'.log e he
+    rcases hwin e.d h4 with h | h
+    · exact hd h
+    · omega
+
+/-- for a policy that is never altered, the window is the policy's: `t + d ≥ clock` (or `d = 0`). -/
+theorem in_window_queryable_init (clock d : Int) (cat : List Group)
+    (hcat : WF (St.init clock d cat)) (ops : List Op)
+    (hconst : ∀ x ∈ (steps (St.init clock d cat) ops).seen, x = d)
+    (g0 : Group) (hg0 : g0 ∈ cat) (hlive : g0.deleted = false) (t : Int)
+    (ht : g0.startT ≤ t ∧ t < g0.endT)
+    (hwin : d = 0 ∨ t + d ≥ (steps (St.init clock d cat) ops).clock) :
+    g0.gid ∈ queryGroups (steps (St.init clock d cat) ops).cat t t :=
+  in_window_queryable (TimeInv.init clock d cat) hcat ops g0 hg0 hlive t ht
+    (fun x hx => by rw [hconst x hx]; exact hwin)
+
+/-! ## 7. the hypotheses are satisfiable: a worked instance -/
+
+theorem WF.init (clock d : Int) (cat : List Group) (h1 : ∀ g ∈ cat, g.gid ≠ 0)
+    (h2 : ∀ g ∈ cat, ∀ g' ∈ cat, g.gid = g'.gid → g.endT = g'.endT)
+    (h3 : ∀ g ∈ cat, ∀ g' ∈ cat, ∀ x ∈ g.sids, x ∈ g'.sids → g.endT = g'.endT) :
+    WF (St.init clock d cat) :=
+  ⟨h1, h2, h3, by intro s hs; simp [St.init] at hs, by intro s hs; simp [St.init] at hs,
+    by intro s hs; simp [St.init] at hs, by intro s hs; simp [St.init] at hs,
+    by intro s hs; simp [St.init] at hs, by intro s hs; simp [St.init] at hs, by intro s hs; simp [St.init] at hs⟩
+
+theorem PendInv.init (clock d : Int) (cat : List Group) : PendInv (St.init clock d cat) := by
+  intro sid h; simp [St.init] at h
+
+theorem EngUniq.init (clock d : Int) (cat : List Group) : EngUniq (St.init clock d cat) := by
+  intro s h; simp [St.init] at h
+
+/-- two groups [0,100) and [100,200), two partitions of which this store owns the first. -/
+def exCat : List Group :=
+  [⟨1, 0, 100, false, [⟨1, true, false⟩, ⟨2, false, false⟩]⟩,
+   ⟨2, 100, 200, false, [⟨3, true, false⟩, ⟨4, false, false⟩]⟩]
+
+/-- duration 50; both owned shards get written to; then the clock reads 170: group 1 expired
+(100 + 50 < 170), group 2 not (200 + 50 ≥ 170). -/
+def ex0 : St := steps (St.init 0 50 exCat) [.load 1, .load 3, .tick 170]
+
+theorem exCat_wf : WF (St.init 0 50 exCat) :=
+  WF.init 0 50 exCat (by decide) (by decide) (by decide)
+
+theorem ex0_wf : WF ex0 := exCat_wf.steps _
+theorem ex0_uniq : EngUniq ex0 := (EngUniq.init 0 50 exCat).steps _
+theorem ex0_time : TimeInv ex0 := (TimeInv.init 0 50 exCat).steps _
+theorem ex0_pend : PendInv ex0 := (PendInv.init 0 50 exCat).steps _
+theorem ex0_static : CatStatic ex0.cat := by unfold CatStatic Group.sids; decide
+theorem ex0_noOrphan : NoOrphan ex0 := by unfold NoOrphan Listed; decide
+
+/-- the run deletes the expired shard 1, marks group 1 and the shard's catalogue entry, keeps 3. -/
+example : (run Script.good ex0).eng.map (·.sid) = [3] ∧ (run Script.good ex0).disk = [3] ∧
+    (run Script.good ex0).cat =
+      [⟨1, 0, 100, true, [⟨1, true, true⟩, ⟨2, false, false⟩]⟩,
+       ⟨2, 100, 200, false, [⟨3, true, false⟩, ⟨4, false, false⟩]⟩] := by decide
+
+/-- `deleted_only_expired` on it: the three recorded actions all carry d = 50, end = 100, now = 170. -/
+example : (run Script.good ex0).log.map (fun e => (e.d, e.endT, e.now)) =
+    [(50, 100, 170), (50, 100, 170), (50, 100, 170)] := by decide
+
+/-- `raise_before_delete_keeps` applies: raised to 200 before the run, group 1 is inside the window … -/
+example : ∃ s' ∈ (run Script.good (step ex0 (.alter 200))).eng, s'.sid = 1 :=
+  (raise_before_delete_keeps ex0_wf ex0_uniq ex0_noOrphan rfl rfl 200
+    ⟨1, 0, 100, false, [⟨1, true, false⟩, ⟨2, false, false⟩]⟩ (by decide) rfl (Or.inr (by decide))
+    Script.good).1 ⟨1, true, false⟩ (by decide) (by decide)
+
+/-- … and really keeps both shards and leaves group 1 live. -/
+example : (run Script.good (step ex0 (.alter 200))).eng.map (·.sid) = [1, 3] ∧
+    queryGroups (run Script.good (step ex0 (.alter 200))).cat 50 50 = [1] := by decide
+
+/-- the hypothesis "before the refresh" is needed: an alteration that lands after meta answered
+this run's refresh (between `updateDurationInfo` and `ExpiredShards`) is too late for this run. -/
+theorem raise_after_refresh_is_too_late :
+    (run ⟨true, some 200, fun _ => .good⟩ ex0).eng.map (·.sid) = [3] := by decide
+
+/-- `eventually_removed` applies to shard 1 of `ex0`. -/
+example : Removed (run Script.good ex0) 1 ∧ 1 ∉ (run Script.good ex0).disk := by
+  obtain ⟨h1, h2⟩ := eventually_removed ex0_wf ex0_static rfl 1
+    ⟨1, 0, 100, false, [⟨1, true, false⟩, ⟨2, false, false⟩]⟩ (by decide) ⟨1, true, false⟩ (by decide) rfl rfl
+    (by decide) (by decide) Script.good rfl (fun _ => rfl)
+  exact ⟨h1, h2 (by decide) (by decide)⟩
+
+/-- with failures the shard survives the run and a later fair run removes it: the delete times
+out (pending), the prune fails; after the background delete completes the next run finishes the job. -/
+def ex1 : St := run ⟨true, none, fun _ => ⟨true, .timeout, false⟩⟩ ex0
+
+example : ex1.eng.map (·.sid) = [1, 3] ∧ ex1.pending = [1] ∧ (step ex1 .complete).eng.map (·.sid) = [3] ∧
+    Removed (run Script.good (step ex1 .complete)) 1 :=
+  ⟨by decide, by decide, by decide, by unfold Removed; decide⟩
+
+/-- `in_window_queryable` on it: t = 150 (group 2) is inside the window of the only duration
+ever seen (150 + 50 ≥ 170) and is returned; t = 50 is outside and its group is gone. -/
+example : 2 ∈ queryGroups (steps ex0 (runOps Script.good ex0)).cat 150 150 :=
+  in_window_queryable ex0_time ex0_wf (runOps Script.good ex0)
+    ⟨2, 100, 200, false, [⟨3, true, false⟩, ⟨4, false, false⟩]⟩ (by decide) rfl 150 (by decide) (by decide)
+
+example : queryGroups (run Script.good ex0).cat 150 150 = [2] ∧ queryGroups (run Script.good ex0).cat 50 50 = [] := by
+  decide
+
 end OG.C14
